@@ -84,7 +84,8 @@ Commit ==
          ELSE LET d == E.def
                   h == E.hash
                   c2 == (h :> DefRec(d)) @@ chg
-              IN  /\ Chk("C04", "change-actor", d.actor = a)
+              IN  /\ Chk("C04", "change-actor", iso = <<>> => d.actor = a)
+                  /\ Chk("C29", "isolated-actor-continues-its-own-history", iso # <<>> => d.actor = a)
                   /\ Chk("C04", "next-seq", d.seq = m.seq)
                   /\ Chk("C04", "start-op-above-all-applied", d.startOp = m.startOp)
                   /\ Chk("C04", "deps-are-heads-plus-own-previous", S(d.deps) = m.deps)
